@@ -4,6 +4,8 @@ import (
 	"bytes"
 	"fmt"
 
+	"github.com/jmsadair/raft"
+
 	"verif/mc/common"
 	"verif/mc/sim"
 )
@@ -14,16 +16,60 @@ import (
 // applied order.
 type Snapshots struct {
 	A       *Apply
+	C       *Commit         // committed set (configuration entries)
 	checked map[[2]int]bool // (node, ordinal) of snapshots already checked
-	Seen    int
+	// configuration entries seen in each node's log, by index (-1: any node)
+	confSeen map[int]map[uint64]string
+	Seen     int
 	Restores int
 }
 
-func (m *Snapshots) Attach(c *sim.Cluster) { m.checked = map[[2]int]bool{} }
-func (m *Snapshots) Mem(b *bytes.Buffer)   {}
+func (m *Snapshots) Attach(c *sim.Cluster) {
+	m.checked = map[[2]int]bool{}
+	m.confSeen = map[int]map[uint64]string{-1: {}}
+	// exact mirror of the configuration entries of every log, maintained from
+	// the log operations themselves (an entry that was truncated and replaced
+	// inside one step must not be remembered)
+	c.LogObservers = append(c.LogObservers, func(node int, op string, index uint64, entries []*raft.LogEntry) {
+		if m.confSeen[node] == nil {
+			m.confSeen[node] = map[uint64]string{}
+		}
+		switch op {
+		case "append":
+			for _, e := range entries {
+				if e.EntryType == raft.ConfigurationEntry {
+					cc := sim.CanonConf(e.Data)
+					m.confSeen[node][e.Index] = cc
+					m.confSeen[-1][e.Index] = cc
+				} else {
+					delete(m.confSeen[node], e.Index)
+				}
+			}
+		case "truncate":
+			for idx := range m.confSeen[node] {
+				if idx >= index {
+					delete(m.confSeen[node], idx)
+				}
+			}
+		}
+	})
+}
+func (m *Snapshots) Mem(b *bytes.Buffer) {}
 
 func (m *Snapshots) Step(c *sim.Cluster) *common.Violation {
-	// make sure the authoritative map is current
+	for i, n := range c.Nodes {
+		if m.confSeen[i] == nil {
+			m.confSeen[i] = map[uint64]string{}
+		}
+		for k := range n.Log.Entries {
+			e := &n.Log.Entries[k]
+			if e.EntryType == raft.ConfigurationEntry {
+				cc := sim.CanonConf(e.Data)
+				m.confSeen[i][e.Index] = cc
+				m.confSeen[-1][e.Index] = cc
+			}
+		}
+	}
 	auth := m.A.Indices()
 	for i, n := range c.Nodes {
 		for j, sn := range n.Sn.Snaps {
@@ -38,6 +84,21 @@ func (m *Snapshots) Step(c *sim.Cluster) *common.Violation {
 				return viol("C10", "snapshot-undecodable", "snapshot %d of n%d (label %d) cannot be decoded: %v", j, i, sn.Meta.LastIncludedIndex, err)
 			}
 			label := sn.Meta.LastIncludedIndex
+			// root-cause discriminator: the bytes are exactly those of a
+			// snapshot that exists elsewhere under a different label (chunks of
+			// two snapshots spliced into one file / label taken from another
+			// request than the bytes)
+			splice := ""
+			local := sn.Local
+			if !local {
+				for _, o := range c.Nodes {
+					for _, os := range o.Sn.Snaps {
+						if os.Meta.LastIncludedIndex != label && bytes.Equal(os.Data, sn.Data) {
+							splice = ":bytes-of-snapshot-with-other-label"
+						}
+					}
+				}
+			}
 			var want []uint64
 			for _, idx := range auth {
 				if idx <= label {
@@ -46,19 +107,48 @@ func (m *Snapshots) Step(c *sim.Cluster) *common.Violation {
 			}
 			for _, a := range list {
 				if a.Index > label {
-					return viol("C10", "snapshot-contains-later-operation", "snapshot of n%d labelled %d contains operation %q of index %d", i, label, a.Data, a.Index)
+					return viol("C10", "snapshot-contains-later-operation"+splice, "snapshot of n%d labelled %d contains operation %q of index %d", i, label, a.Data, a.Index)
 				}
 			}
 			if len(list) < len(want) {
-				return viol("C10", "snapshot-misses-operation", "snapshot of n%d labelled %d holds %d operations, %d were applied up to that index", i, label, len(list), len(want))
+				return viol("C10", "snapshot-misses-operation"+splice, "snapshot of n%d labelled %d holds %d operations, %d were applied up to that index", i, label, len(list), len(want))
 			}
 			for x, a := range list {
 				if x >= len(want) {
-					return viol("C10", "snapshot-extra-operation", "snapshot of n%d labelled %d holds %d operations, only %d were applied up to that index", i, label, len(list), len(want))
+					return viol("C10", "snapshot-extra-operation"+splice, "snapshot of n%d labelled %d holds %d operations, only %d were applied up to that index", i, label, len(list), len(want))
 				}
 				term, data, _ := m.A.First(want[x])
 				if a.Index != want[x] || a.Term != term || a.Data != data {
-					return viol("C10", "snapshot-wrong-content", "snapshot of n%d labelled %d position %d is (%d,%d,%q), applied order has (%d,%d,%q)", i, label, x, a.Index, a.Term, a.Data, want[x], term, data)
+					return viol("C10", "snapshot-wrong-content"+splice, "snapshot of n%d labelled %d position %d is (%d,%d,%q), applied order has (%d,%d,%q)", i, label, x, a.Index, a.Term, a.Data, want[x], term, data)
+				}
+			}
+			{
+				// the configuration committed at the label: the newest
+				// configuration entry with index <= label that this node's log
+				// held (everything up to the label is applied, hence committed);
+				// for a snapshot received from elsewhere, the entries seen in any log
+				want := ""
+				var at uint64
+				src := m.confSeen[i]
+				if !local {
+					// received: judge it by the log history of the node that took it
+					src = nil
+					for j, o := range c.Nodes {
+						for _, os := range o.Sn.Snaps {
+							if os.Local && os.Meta.LastIncludedIndex == label && os.Meta.LastIncludedTerm == sn.Meta.LastIncludedTerm {
+								src = m.confSeen[j]
+							}
+						}
+					}
+				}
+				for idx, ce := range src {
+					if idx <= label && idx >= at {
+						at, want = idx, ce
+					}
+				}
+				got := sim.CanonConf(sn.Meta.Configuration)
+				if want != "" && got != want {
+					return viol("C10", "snapshot-wrong-configuration", "snapshot of n%d labelled %d carries %s, the configuration committed at that index is %s", i, label, got, want)
 				}
 			}
 			if term, _, ok := m.A.First(label); ok && term != sn.Meta.LastIncludedTerm {
